@@ -108,9 +108,12 @@ class Check:
         return o
 
     def count(self, name, value, floor=None):
+        """floor: the instance count confirmed by hand on the reviewed tree.  The alarm threshold is half of it: the floor
+        exists to catch a rule that has stopped matching (vacuous pass), not the drift that ordinary refactoring causes
+        (extracting a helper, merging two sites)."""
         self.counts[name] = value
         if floor is not None:
-            self.floors[name] = floor
+            self.floors[name] = max(1, (floor + 1) // 2)
 
     def note(self, s):
         self.notes.append(s)
